@@ -821,7 +821,7 @@ func (c *client) interceptSystemQuery(hdr *frame.Header, stmt interface{}) {
 			localColumns, _ := c.systemColumns(s.Table)
 			if columns, err := parser.FilterColumns(s, localColumns); err != nil {
 				c.send(hdr, &message.Invalid{ErrorMessage: err.Error()})
-			} else if row, err := c.filterSystemLocalValues(s, columns); err != nil {
+			} else if row, err := c.filterSystemLocalValues(s, localColumns); err != nil { // '*' stands for the table's columns
 				c.send(hdr, &message.Invalid{ErrorMessage: err.Error()})
 			} else {
 				c.send(hdr, &message.RowsResult{
@@ -841,7 +841,7 @@ func (c *client) interceptSystemQuery(hdr *frame.Header, stmt interface{}) {
 				for _, n := range c.proxy.nodes {
 					if n != c.proxy.localNode {
 						var row message.Row
-						row, err = c.filterSystemPeerValues(s, columns, n, len(c.proxy.nodes)-1)
+						row, err = c.filterSystemPeerValues(s, peersColumns, n, len(c.proxy.nodes)-1) // '*' stands for the table's columns
 						if err != nil {
 							break
 						}
